@@ -24,12 +24,12 @@ func init() {
 	register(&CheckDef{
 		ID:    "C14",
 		Level: "exploration",
-		Rule: "seeded histories on a real primary with a backup service, through both real backup clients: the file-based client on a directory, and the LiteFS Cloud client talking to an in-process server that implements the protocol (GET /pos, POST /db/tx with the contiguity rule, EPOSMISMATCH errors and the Litefs-Hwm header, GET /db/snapshot). Steps between syncs: commits in rollback and WAL mode (also more than the 256-file compaction limit), drop and recreate, retention sweeps that remove local files the service does not have yet, uploads that fail before, in the middle of, or after the body (the service may or may not have taken the file), and manipulations of the service: position behind / equal / ahead on the same history / forked (same TXID, other checksum; other history altogether) / database missing. Oracles after every sync that reports success: the service holds a contiguous, verifying chain; if no restore happened its position is a position of the primary's history (a prefix) and, when the sync moved everything, equals the primary's position and restores (all files compacted and applied) to exactly the primary's image; when the service was ahead, forked or could not be extended the primary ends up with exactly the service's image and position and the service's files are untouched; the published high-water mark never exceeds the highest TXID the service acknowledged; after a failed upload the service chain is still contiguous and the next sync succeeds. evaluations = syncs; distinct = distinct (client, relation before the sync, fault, outcome) tuples; non-trivial = run with >= 1 incremental upload and >= 1 restore or fault",
+		Rule: "seeded histories on a real primary with a backup service, through both real backup clients: the file-based client on a directory, and the LiteFS Cloud client talking to an in-process server that implements the protocol (GET /pos, POST /db/tx with the contiguity rule, EPOSMISMATCH errors and the Litefs-Hwm header, GET /db/snapshot). Steps between syncs: commits in rollback and WAL mode (also more than the 256-file compaction limit), drop and recreate, retention sweeps that remove local files the service does not have yet, uploads that fail before, in the middle of, or after the body (the service may or may not have taken the file), and manipulations of the service: position behind / equal / ahead on the same history / forked (same TXID, other checksum; other history altogether) / database missing. Oracles after every sync that reports success: the service holds a contiguous, verifying chain; if no restore happened its position is a position of the primary's history (a prefix) and, when the sync moved everything, equals the primary's position and restores (all files compacted and applied) to exactly the primary's image; when the service was ahead, forked or could not be extended the primary ends up with exactly the service's image and position and the service's files are untouched; the published high-water mark never exceeds the highest TXID the service acknowledged; after a failed upload the service chain is still contiguous and the next sync succeeds. Background-stream runs (nobody but the primary touches the service): at every observation the primary has not moved to a position outside or earlier in its own history, the service chain is contiguous and a prefix of that history, the high-water mark is behind the acknowledgements, and once the service stays reachable the backlog drains within 8 rounds of (commit, wait). evaluations = syncs; distinct = distinct (client, relation before the sync, fault, outcome) tuples; non-trivial = run with >= 1 incremental upload and >= 1 restore or fault",
 		Run:   runC14,
 		NonTrivial: func(r *Run) bool {
 			return r.Stats["c14.sync.checked"] > 0
 		},
-		Assumptions: []string{"the LiteFS Cloud server is a model written from the client's protocol (same contiguity rule as the file client); syncs are issued explicitly (Store.SyncBackup), the background loop's timing is not explored"},
+		Assumptions: []string{"the LiteFS Cloud server is a model written from the client's protocol (same contiguity rule as the file client); two thirds of the runs issue syncs explicitly (Store.SyncBackup); one third runs the background stream (monitorPrimaryBackup with its cached position map, retry ticker, batching delay and full-sync interval) on the fake clock with service outages, without manipulating the service"},
 		Real:        []string{"Store.streamBackup / streamBackupDB / streamBackupDBSnapshot / restoreDBFromBackup, ltx.Compactor, litefs.FileBackupClient, lfsc.BackupClient, retention with HWM"},
 		Stub:        []string{"LiteFS Cloud server model (scenario lfsc)", "SimKernel", "PagerSim"},
 	})
@@ -272,6 +272,219 @@ func c14chain(names []string, data [][]byte) (pos ltx.Pos, im *Image, msg string
 	return pos, im, ""
 }
 
+// c14outage makes the whole service unreachable while down is set.
+type c14outage struct {
+	litefs.BackupClient
+	r    *Run
+	mu   sync.Mutex
+	down bool
+}
+
+func (o *c14outage) isDown() bool { o.mu.Lock(); defer o.mu.Unlock(); return o.down }
+func (o *c14outage) set(v bool)   { o.mu.Lock(); o.down = v; o.mu.Unlock() }
+func (o *c14outage) PosMap(ctx context.Context) (map[string]ltx.Pos, error) {
+	if o.isDown() {
+		o.r.Count("fault.service_unreachable")
+		return nil, fmt.Errorf("injected: service unreachable")
+	}
+	return o.BackupClient.PosMap(ctx)
+}
+func (o *c14outage) WriteTx(ctx context.Context, name string, rd io.Reader) (ltx.TXID, error) {
+	if o.isDown() {
+		o.r.Count("fault.service_unreachable")
+		_, _ = io.Copy(io.Discard, rd)
+		return 0, fmt.Errorf("injected: service unreachable")
+	}
+	return o.BackupClient.WriteTx(ctx, name, rd)
+}
+func (o *c14outage) FetchSnapshot(ctx context.Context, name string) (io.ReadCloser, error) {
+	if o.isDown() {
+		o.r.Count("fault.service_unreachable")
+		return nil, fmt.Errorf("injected: service unreachable")
+	}
+	return o.BackupClient.FetchSnapshot(ctx, name)
+}
+
+// c14Continuous runs the primary's background backup stream (the loop that keeps
+// a cached position map between rounds) on the fake clock. Nobody touches the
+// service but the primary, so the service is a prefix of the primary's history
+// at every instant: the primary must never be rolled back, the service chain
+// stays contiguous and a prefix, the high-water mark stays behind what the
+// service acknowledged, and once the service is reachable again the backlog
+// drains (a batch of at most 256 files per commit notification).
+func c14Continuous(r *Run, h *hist, svc c14svc, kind string, compress bool, retention time.Duration) {
+	t := r.Tape
+	delay := []time.Duration{10 * time.Millisecond, 100 * time.Millisecond, time.Second}[t.Next(3)]
+	full := []time.Duration{0, 2 * time.Second, 10 * time.Second}[t.Next(3)]
+	r.Cfg["stream"], r.Cfg["backup_delay"], r.Cfg["full_sync"] = true, delay.String(), full.String()
+	var fb *c14faulty
+	var out *c14outage
+	h.n.PreOpen = func(n *Node) {
+		if cl, ok := svc.(*c14cloud); ok {
+			u, _ := url.Parse("http://lfsc.local:443")
+			cl.c = lfsc.NewBackupClient(n.Store, *u)
+			cl.c.Cluster = "c1"
+			cl.c.HTTPClient = &http.Client{Transport: cl}
+		}
+		out = &c14outage{BackupClient: svc.client(), r: r}
+		fb = &c14faulty{BackupClient: out, r: r}
+		n.Store.BackupClient = fb
+	}
+	h.n.Cfg.Tune = func(s *litefs.Store) {
+		s.Retention = retention
+		s.RetentionMonitorInterval = 0
+		s.BackupDelay = delay
+		s.BackupFullSyncInterval = full
+	}
+	if err := h.n.Open(); err != nil {
+		r.Inconclusive("open: %v", err)
+		return
+	}
+	h.n.WaitPrimary(5 * time.Second)
+	if !h.openConns(1) {
+		return
+	}
+	var order []ltx.Pos // the primary's history, in order
+	index := map[ltx.Pos]int{}
+	last := -1
+	// observe checks what must hold at every instant
+	observe := func(when string) bool {
+		db := h.db()
+		if db == nil {
+			return true
+		}
+		if !r.Check(!h.n.Exited, "c14.exit", "the primary stopped (Exit %d) %s", h.n.ExitCode, when) {
+			return false
+		}
+		pos := db.Pos()
+		if pos.TXID > 0 {
+			i, ok := index[pos]
+			if !ok {
+				if len(order) > 0 && pos.TXID <= order[len(order)-1].TXID {
+					r.Failf("c14.unwarranted-restore", "%s: the primary is at %s, a position it never committed (its history ends at %s); the service only ever held a prefix of that history", when, pos, order[len(order)-1])
+					return false
+				}
+				index[pos] = len(order)
+				order = append(order, pos)
+				i = len(order) - 1
+			}
+			if !r.Check(i >= last, "c14.unwarranted-restore", "%s: the primary went back from %s to %s although the service only ever held a prefix of its history", when, order[maxInt(last, 0)], pos) {
+				return false
+			}
+			last = i
+		}
+		names, data := svc.files(h.name)
+		spos, _, msg := c14chain(names, data)
+		if !r.Check(msg == "", "c14.service-chain", "%s: the service chain is broken: %s", when, msg) {
+			return false
+		}
+		if !spos.IsZero() {
+			if _, ok := index[spos]; !r.Check(ok, "c14.not-a-prefix", "%s: the service ends at %s, which the primary never was at", when, spos) {
+				return false
+			}
+		}
+		fb.mu.Lock()
+		acks := fb.acks
+		fb.mu.Unlock()
+		if hwm := db.HWM(); hwm > acks && hwm > spos.TXID {
+			r.Failf("c14.hwm", "%s: high-water mark %s exceeds what the service holds (%s) and ever acknowledged (%s)", when, hwm, spos.TXID, acks)
+			return false
+		}
+		return true
+	}
+	commits := func(n int) bool {
+		for i := 0; i < n && !r.Failed(); i++ {
+			h.commit(t)
+			if !observe("after a commit") {
+				return false
+			}
+		}
+		return !r.Failed()
+	}
+	if !commits(t.Range(1, 4)) || h.ref.N() == 0 {
+		return
+	}
+	wait := func(d time.Duration) bool {
+		time.Sleep(d)
+		return observe(fmt.Sprintf("after waiting %s", d))
+	}
+	if !wait(delay + 1500*time.Millisecond) {
+		return
+	}
+	nsteps := t.Range(4, 12)
+	long := 0
+	for i := 0; i < nsteps && !r.Failed(); i++ {
+		r.Step()
+		event := []string{"commits", "many-commits", "outage", "restore-service", "wait", "wait-long", "retention", "to-wal"}[t.Pick([]int{8, 2, 3, 4, 5, 2, 2, 1})]
+		if event == "many-commits" && long >= 2 {
+			event = "commits"
+		}
+		switch event {
+		case "commits":
+			commits(t.Range(1, 6))
+		case "many-commits":
+			long++
+			saved := h.maxPages
+			h.maxPages = 4
+			commits(250 + t.Range(0, 30))
+			h.maxPages = saved
+			r.Count("c14.stream.long-backlog")
+		case "outage":
+			out.set(true)
+		case "restore-service":
+			out.set(false)
+		case "wait":
+			wait(delay + time.Duration(t.Range(0, 1500))*time.Millisecond)
+		case "wait-long":
+			wait(12 * time.Second)
+		case "retention":
+			time.Sleep(50 * time.Millisecond)
+			_ = h.n.Store.EnforceRetention(context.Background())
+			observe("after a retention sweep")
+		case "to-wal":
+			if !h.wal && h.ref.N() > 0 {
+				if !h.toWAL() {
+					return
+				}
+				observe("after the switch to WAL")
+			}
+		}
+		r.State("stream/%s/%s/down=%v/%s", kind, event, out.isDown(), delay)
+	}
+	if r.Failed() {
+		return
+	}
+	// faults stop: the backlog drains, one batch per commit notification
+	out.set(false)
+	if !wait(delay + 2500*time.Millisecond) {
+		return
+	}
+	db := h.db()
+	if db == nil {
+		return
+	}
+	for round := 0; round < 8; round++ {
+		names, data := svc.files(h.name)
+		spos, sIm, _ := c14chain(names, data)
+		if spos == db.Pos() {
+			if d := DiffImages(sIm, h.ref); d != "" && h.ref.N() > 0 {
+				r.Failf("c14.restore-image", "the service's chain restores to something else than the primary's image at %s: %s", spos, d)
+				return
+			}
+			r.Count("c14.stream.drained")
+			r.Count("c14.sync.checked")
+			h.closeConns()
+			return
+		}
+		if !commits(1) || !wait(delay+2500*time.Millisecond) {
+			return
+		}
+	}
+	names, data := svc.files(h.name)
+	spos, _, _ := c14chain(names, data)
+	r.Failf("c14.stream-stalled", "the service has been reachable for 8 rounds of (commit, wait %s) and is still at %s while the primary is at %s", delay+2500*time.Millisecond, spos, db.Pos())
+}
+
 func runC14(r *Run) {
 	t := r.Tape
 	h := &hist{r: r, name: "db"}
@@ -296,6 +509,10 @@ func runC14(r *Run) {
 	} else {
 		cl := &c14cloud{dbs: map[string]map[string][]byte{}}
 		svc = cl
+	}
+	if t.Chance(1, 3) {
+		c14Continuous(r, h, svc, kind, compress, retention)
+		return
 	}
 	var fb *c14faulty
 	h.n.PreOpen = func(n *Node) {
@@ -605,4 +822,11 @@ func runC14(r *Run) {
 		}
 	}
 	h.closeConns()
+}
+
+func maxInt(a, b int) int {
+	if a > b {
+		return a
+	}
+	return b
 }
